@@ -164,6 +164,29 @@ Theorem C20_gen_decodes : forall D S d,
                 (forall pl, In pl (leaves v) <-> In pl (expected S o w)).
 Proof. exact real_s_decodes. Qed.
 
+(** identifiers of the generator of the current tree (clashes included): every struct field name is
+    a usable Go identifier; the emitted enum blocks are enums of the schema under their pre-assigned
+    names, each once; the sel<T><n> helpers have pairwise distinct numbers and composite type names -
+    hence pairwise distinct names when no composite type name ends in a digit.  [lex_fields]: every
+    response key / composite type / fragment / type condition gives a usable field name (every
+    GraphQL name but "_": known finding blank-field-name).
+    PARTIAL with respect to [cl_identifiers]: that the declared identifiers (enum types, constants,
+    <Op>Data, <F>Fragment, sel<T><n>, json) are pairwise distinct AS A WHOLE is proved only through
+    [C20_gen_wf_partial]; the parts are here, [C20_gen_accepts_structs] (<Op>Data / <F>Fragment),
+    [C20_enum_type_names_distinct] and [C20_enum_const_names_distinct]. *)
+Theorem C20_gen_identifiers_partial : forall D S d p,
+  schema_ok S = true -> schema_loadable S = true -> lex_fields S d = true ->
+  generate_real D S (doc_valid S d) d = GOk p ->
+  (forall dfn, In dfn (p_defs p) -> idents_ok (td_type dfn) = true) /\
+  NoDup (map fst (p_enums p)) /\
+  (forall n' cs, In (n', cs) (p_enums p) ->
+     exists n vs, In (DEnum n vs) (s_types S) /\ n' = enum_go_name S d n /\ cs = map (fun v => (const_go_name S d n v, v)) vs) /\
+  NoDup (map snd (DX (p_defs p))) /\
+  (forall ix, In ix (DX (p_defs p)) -> In (fst ix) (composites S)) /\
+  (forallb (fun t => negb (ends_with_digit t)) (composites S) = true ->
+   NoDup (flat_map (fun x => sel_names (td_type x)) (p_defs p))).
+Proof. exact real_s_idents. Qed.
+
 (** operations that fail validation are rejected and nothing is generated (whatever the flags) *)
 Theorem C20_gen_invalid_no_output : forall Q S d,
   doc_valid S d = false -> generate Q S (doc_valid S d) d = GRejected.
@@ -263,6 +286,7 @@ Print Assumptions C20_enum_const_names_distinct.
 Print Assumptions C20_gen_wf_clauses_partial.
 Print Assumptions C20_gen_accepts_structs.
 Print Assumptions C20_gen_decodes.
+Print Assumptions C20_gen_identifiers_partial.
 Print Assumptions C20_generators_agree.
 Print Assumptions C20_fixed_member_name_clash.
 Print Assumptions C20_gen_invalid_no_output.
